@@ -109,6 +109,10 @@ fn main() {
     match args[0].as_str() {
         "merge-distinct" => return merge_distinct(&args[1..]),
         "merge-hashlog" => return merge_hashlog(&args[1..]),
+        "noop" => {
+            println!("{{\"t\":\"noop\"}}");
+            return;
+        }
         "selfcheck" => {
             match harness::refchess::self_check(true) {
                 Ok(()) => println!("{{\"t\":\"selfcheck\",\"ok\":true}}"),
@@ -154,7 +158,7 @@ fn main() {
     }
     silence_panics();
     // model self-check: a failure is a harness error (inconclusive), never a violation
-    if let Err(e) = harness::refchess::self_check(ctx.variant != Variant::Miri) {
+    if let Err(e) = harness::refchess::self_check_depth(if ctx.variant == Variant::Miri { 1 } else { 3 }) {
         println!("{{\"t\":\"error\",\"msg\":{}}}", harness::report::jstr(&format!("model self-check failed: {}", e)));
         std::process::exit(3);
     }
